@@ -9,7 +9,7 @@ META = {
                   "easy counts": "symbolic Int in [0,8]", "target": "any real r <= 0 and any real r >= 1", "methods": "linear/lower/higher", "configs": "4 x 6 metrics"},
         "thorough": {"relevant class": "1..6; topr/tonr P+N <= 6", "easy counts": "symbolic Int in [0,50]", "target": "as quick", "methods": "all", "configs": "all"},
     },
-    "assumptions": ["R-ideal: exact real arithmetic; the float64 rounding of (r - easy)/hard is covered only by the F-bits lemma items (kind=fbits) over enumerated small counts",
+    "assumptions": ["R-ideal: exact real arithmetic for kind=extreme; the float64 rounding of (r - easy)/hard is decided in the F-bits regime (kind=fbits_smt: z3 FloatingPoint, symbolic double r >= 1 through the real rescaling code, counts enumerated) and additionally swept concretely (kind=fbits)",
                     "nextafter = one-step function with gap axioms against all input scores"],
 }
 OPTS = {"quick": {"query_timeout_ms": 30000}, "thorough": {"query_timeout_ms": 120000}}
@@ -25,6 +25,11 @@ def items(tier):
                     out.append({"kind": "extreme", "metric": metric, "sc": sc, "ec": ec, "P": P, "N": N, "K": K, "side": side})
     for metric in ("tpr", "tnr", "topr", "tonr"):
         out.append({"kind": "fbits", "metric": metric, "nmax": 4 if tier == "quick" else 8, "kmax": 40 if tier == "quick" else 400})
+    for metric in ("tpr", "tnr", "topr", "tonr"):
+        # ~3-25 s of bit-blasting per (n, k) query (fpSub, fpDiv on a symbolic double): small grid in the quick tier
+        for n in ((1, 3) if tier == "quick" else range(1, 7)):
+            for k0 in ((0, 5) if tier == "quick" else range(0, 40, 5)):
+                out.append({"kind": "fbits_smt", "metric": metric, "n": n, "k0": k0, "kmax": k0 + 4})
     # mixed dtypes: integer scores in one class, float scores in the other (pooled metrics must not truncate)
     for metric in ("topr", "tonr"):
         for sc, ec in CFGS:
@@ -35,7 +40,34 @@ def items(tier):
 
 
 def run(h, kind, **p):
-    return {"extreme": run_extreme, "fbits": run_fbits, "mixed": run_mixed}[kind](h, **p)
+    return {"extreme": run_extreme, "fbits": run_fbits, "mixed": run_mixed, "fbits_smt": run_fbits_smt}[kind](h, **p)
+
+
+def run_fbits_smt(h, metric, n, kmax, k0=0):
+    """F-bits lemma decided by z3 FloatingPoint on the REAL rescaling code: for every IEEE double r >= 1.0 the target
+    handed on by threshold_at_<metric> is still >= 1.0 (so the exact-extreme branch is taken), for each enumerated
+    count pair (n scored, k easy).  In this regime concrete numbers are doubles too: the repository's divisions of
+    Python numbers are IEEE divisions (constant-folded by z3), no rational arithmetic is involved."""
+    h.policy(fp_kernel=True)
+    r = h.fp("r")
+    h.assume(r >= 1.0)
+    captured = []
+    base = h.sa.Scores
+
+    class Spy(base):
+        def _threshold_at_ratio(self, scores, target_ratio, increasing, ratio_class, method):
+            captured.append(target_ratio)
+            return 0.0
+
+    for k in range(k0, kmax + 1):
+        kw = {"nb_easy_pos": k} if metric in ("tpr", "topr") else {"nb_easy_neg": k}
+        pos = [0.5 + i for i in range(n)] if metric != "tnr" else [0.0]
+        neg = [0.0] if metric == "tpr" else [0.25 + i for i in range(n)]
+        S = Spy(pos, neg, **kw)
+        del captured[:]
+        getattr(S, f"threshold_at_{metric}")(r)
+        h.check(f"[float64] n={n}: a target r >= 1.0 is still >= 1.0 after the easy-sample rescaling (all doubles r, k=0..{kmax})",
+                len(captured) == 1 and captured[0] >= 1.0)
 
 
 def run_mixed(h, metric, sc, ec, ints, side):
